@@ -48,6 +48,9 @@ extra = {"C08": "yes: downloads after an abandoned earlier transfer on the same 
          "R8C01": "yes: messages at the default size limit with builder history that leaves nothing on the wire (options added and cleared, set to an empty list) through to_bytes(); a refusal of something that fits is reported under C01 too when no caller-chosen limit is involved",
          "R8C05": "caught at once, by a strengthening made while the change was still being written: numbers beyond the registries' width (registered number + 2^16 .. 2^63) as rows of MC_Registry",
          "R8C06": "yes: byte strings whose length would wrap in a narrower integer (255/256/512/65536 + 0..9) in the uint decoder's recorder",
+         "R9C07": "yes: builder history on the prepared reply before the error is applied - a Content-Format set and withdrawn, raw values (empty, several, over-long), an emptied entry, an earlier error",
+         "R9C15": "yes: counters after very many rounds - runs of up to 2^24 non-confirmable rounds performed in full but recorded as one event, `Observe!ChangedMany` being their closed form (checked against single rounds in MC_Observe); single rounds recorded around 2^8, 2^16, 2^24",
+         "R9C20": "yes: expiries that are not whole milliseconds (0, 1 us, 750 us, 999 us, 1.5 ms, 20.5 ms); the trace carries a lower and an upper bound and the interval clocks use the right one on each side",
          "R4C12": "yes: the two entry points of an exchange as separate steps with equal message ids on different endpoints (model MODE split, deferred responses in the mixed driver); a disturbed other key is reported under C12 in every branch",
          "C20": "yes: expiry under block-wise traffic on other keys (model `Other` now block-wise; driver scenario `expiry-traffic`)"}
 for d in sorted(glob.glob(os.path.join(ROOT, "seeded", "*", "meta.json"))):
